@@ -5,9 +5,14 @@
 import Echse.Lemmas.Ical14
 namespace Echse.Ical
 
-theorem round_marked (p : Parser) (h : Marked p ∧ ¬ Fold (bpOf p)) :
-    round p = procRes (doProc { p with sentinel := 0 }) := by
-  unfold round; rw [if_pos h]
+theorem round_marked (p : Parser) (h : Marked p ∧ ¬ Fold (bpOf p)) (hs : p.stash.length ≠ 0) :
+    round p = procRes (doProc (unmark p)) := by
+  unfold round; rw [if_pos h, if_pos hs]
+
+/-- the marked line turns out complete, but it is empty: no line -/
+theorem round_marked_empty (p : Parser) (h : Marked p ∧ ¬ Fold (bpOf p)) (hs : ¬ p.stash.length ≠ 0) :
+    round p = (unmark p, none) := by
+  unfold round; rw [if_pos h, if_neg hs]
 
 theorem round_chop (p : Parser) (h : ¬ (Marked p ∧ ¬ Fold (bpOf p))) : round p = chopR (preChop p) := by
   unfold round; rw [if_neg h]
@@ -15,7 +20,7 @@ theorem round_chop (p : Parser) (h : ¬ (Marked p ∧ ¬ Fold (bpOf p))) : round
 /-- no complete line in these bytes -/
 def NoLine (b : List Byte) : Prop := eolR b = none ∨ ∃ e, eolR b = some e ∧ e ≥ b.length
 
-theorem rest_stashRest (p : Parser) (s : Byte) : rest (stashRest p s).1 = rest p := by
+theorem rest_stashRest (p : Parser) (s : Bool) : rest (stashRest p s).1 = rest p := by
   unfold rest; rw [stashRest_buf, stashRest_bix]
 
 theorem round_spec (p : Parser) (A : Abs) (h : Pre p A) (hne : rest p ≠ []) :
@@ -34,20 +39,35 @@ theorem round_spec (p : Parser) (A : Abs) (h : Pre p A) (hne : rest p ≠ []) :
         cases hx : isFold c with
         | false => rfl
         | true => exact absurd ((fold_iff c).2 hx) (by rw [← hbp]; exact hc.2)
-      have hm' := (marked_iff p).1 hc.1
-      have hcur : A.cur ≠ [] := by rw [← h.rel.stash]; exact hm'.1
-      have hpend : A.sc.pend = true := (h.rel.mark hcur).1 hm'.2
-      have hb := bookProc_spec { p with sentinel := 0 } A h.rel.stash h.rel.comp h.rel.log hcur
-      have hrest : rest (bookProc { p with sentinel := 0 } A.ins).1 = c :: r := by
-        unfold rest; rw [hb.2.2.1, hb.2.2.2]; exact hr
-      refine ⟨(bookProc { p with sentinel := 0 } A.ins).1, (bookProc { p with sentinel := 0 } A.ins).2,
-        flushA A, ?_, ⟨hb.1, flushA_inv A, ?_, ?_⟩, ?_, hb.2.1, ?_⟩
-      · rw [flatNext_proc p _ A.ins (round_marked p hc)]
-      · rw [hrest, flushA_sc]
-        exact good_restart A.sc c r hpend hf (by rw [← hr]; exact h.good)
-      · rw [hrest, ← hr]; exact h.nobsl
-      · rw [hrest]; simp
-      · rw [hrest]; exact runA_flush A c r hpend hf
+      have hpend : A.sc.pend = true := h.rel.mark.1 hc.1
+      have hgood : Good {} (c :: r) := good_restart A.sc c r hpend hf (by rw [← hr]; exact h.good)
+      by_cases hs : p.stash.length ≠ 0
+      · have hcur : A.cur ≠ [] := by
+          rw [← h.rel.stash]; intro hx; rw [hx] at hs; exact hs rfl
+        have hb := bookProc_spec (unmark p) A h.rel.stash h.rel.comp h.rel.log hcur rfl
+        have hrest : rest (bookProc (unmark p) A.ins).1 = c :: r := by
+          unfold rest; rw [hb.2.2.1, hb.2.2.2]; exact hr
+        refine ⟨(bookProc (unmark p) A.ins).1, (bookProc (unmark p) A.ins).2,
+          flushA A, ?_, ⟨hb.1, flushA_inv A, ?_, ?_⟩, ?_, hb.2.1, ?_⟩
+        · rw [flatNext_proc p _ A.ins (round_marked p hc hs)]
+        · rw [hrest, flushA_sc]; exact hgood
+        · rw [hrest, ← hr]; exact h.nobsl
+        · rw [hrest]; simp
+        · rw [hrest]; exact runA_flush A c r hpend hf
+      · -- an empty line: the mark comes off, nothing is processed
+        have hcur : A.cur = [] := by
+          rw [← h.rel.stash]; exact List.eq_nil_of_length_eq_zero (by omega)
+        have hfl := flushA_of_nil A hcur
+        have hrest : rest (unmark p) = c :: r := hr
+        refine ⟨unmark p, A.ins, flushA A, ?_, ⟨?_, flushA_inv A, ?_, ?_⟩, ?_, ?_, ?_⟩
+        · rw [flatNext_eq, round_marked_empty p hc hs]; rfl
+        · rw [hfl]
+          exact ⟨h.rel.stash, h.rel.comp, h.rel.log, Iff.rfl⟩
+        · rw [hrest, flushA_sc]; exact hgood
+        · rw [hrest, ← hr]; exact h.nobsl
+        · rw [hrest]; simp
+        · rw [hfl]
+        · rw [hrest]; exact runA_flush A c r hpend hf
   · obtain ⟨A1, h1, hp1, hins1, hrun1⟩ := pre_chop p A h hne hc
     rw [flatNext_eq, round_chop p hc, hrun1, ← hins1]
     cases he : eolR (rest (preChop p)) with
